@@ -17,9 +17,9 @@ def closure_return_terms(Y, term):
     return out
 
 
-def rule_a(R, ctx):
+def rule_a(R, ctx, rid="C02.a"):
     Y = ctx.yrs
-    R.rule("C02.a", "R-PROV frontier consistency (contradiction rule): BlockStore::is_missing treats clocks inside a Skip range as "
+    R.rule(rid, "R-PROV frontier consistency (contradiction rule): BlockStore::is_missing treats clocks inside a Skip range as "
                     "missing, so every clock (i) stored into PendingUpdate.missing (argument of StateVector::set_min on "
                     "BlockPicker.missing, followed through the closure the caller passes) or (ii) used in the condition that sets the "
                     "retry decision in TransactionMut::apply_update must not come from a skip-unaware frontier "
@@ -28,7 +28,7 @@ def rule_a(R, ctx):
     sv = FnView(sw)
     sms = [c for c in sw.calls_to("yrs::state_vector::StateVector::set_min")
            if field_path(simp_deep(sv.arg(c, 0)))[-1:] == ["missing"]]
-    R.floor("C02.a", "set_min on BlockPicker.missing", len(sms), 1)
+    R.floor(rid, "set_min on BlockPicker.missing", len(sms), 1)
     for cs, site in ordinal_sites(sms):
         val = sv.arg(cs, 2)
         terms = [(sw, val)]
@@ -44,18 +44,18 @@ def rule_a(R, ctx):
                             terms.extend(closure_return_terms(Y, cv.arg(ccs, pidx - 1)))
         bad = [(f, t) for f, t in terms if term_has_call(t, *SKIP_UNAWARE)]
         for f, t in bad:
-            R.ob("C02.a", f, "missing-clock-source", False,
+            R.ob(rid, f, "missing-clock-source", False,
                  "clock stored into PendingUpdate.missing is computed by a skip-unaware frontier: %s — a dependency inside an "
                  "integrated Skip range is recorded as `clock = end of list`, which no later delivery can exceed" % sshow(t),
                  "%s:%s" % (f.file, f.line))
         if not bad:
-            R.ob("C02.a", sw, site, True, "stored clock sources: %s" % "; ".join(sshow(t) for _, t in terms), cs.loc())
+            R.ob(rid, sw, site, True, "stored clock sources: %s" % "; ".join(sshow(t) for _, t in terms), cs.loc())
 
     au = Y.fn(TXN + "::apply_update")
     av = FnView(au)
     # the retry flag: local(s) guarding the recursive apply_update calls
     rec = au.calls_to(TXN + "::apply_update")
-    R.floor("C02.a", "recursive apply_update (retry) calls", len(rec), 1)
+    R.floor(rid, "recursive apply_update (retry) calls", len(rec), 1)
     flag_locals = set()
     for cs in rec:
         for l in av.guards(cs.bb):
@@ -83,11 +83,11 @@ def rule_a(R, ctx):
                 bad = [l for l in gs if term_has_call(l.term, *SKIP_UNAWARE)]
                 uses_missing = any(term_has_field(l.term, "PendingUpdate.missing") or
                                    term_has_call(l.term, "yrs::block_store::BlockStore::is_missing") for l in gs)
-                R.ob("C02.a", au, "retry-condition#%d" % (n - 1), not bad and uses_missing,
+                R.ob(rid, au, "retry-condition#%d" % (n - 1), not bad and uses_missing,
                      ("retry decision compares the stashed dependency clock with a skip-unaware frontier: %s" % "; ".join(l.desc for l in bad))
                      if bad else ("retry condition: %s" % [l.desc for l in gs]),
                      "%s:%s" % (au.file, d[3]["line"]))
-    R.floor("C02.a", "retry := true assignments in apply_update", n, 1)
+    R.floor(rid, "retry := true assignments in apply_update", n, 1)
 
 
 def must_pass(fn, frm, to, via):
@@ -186,9 +186,9 @@ SV_MUTATORS = ("re:^yrs::state_vector::StateVector::(set_min|set_max|inc_by|inse
                "re:^std::collections::HashMap::(insert|remove|entry|get_mut|clear)$")
 
 
-def rule_b2(R, ctx):
+def rule_b2(R, ctx, rid="C02.b2"):
     Y = ctx.yrs
-    R.rule("C02.b2", "R-OWN the missing-dependency vector is only ever lowered: every mutation of a PendingUpdate.missing / "
+    R.rule(rid, "R-OWN the missing-dependency vector is only ever lowered: every mutation of a PendingUpdate.missing / "
                      "BlockPicker.missing state vector anywhere in the crate is StateVector::set_min (keeping the lowest still-missing clock "
                      "per client when stashes are merged); raising it (set_max / insert / inc_by) would skip the retry of the older stash")
     n = 0
@@ -206,8 +206,8 @@ def rule_b2(R, ctx):
                 continue
             n += 1
             ok = cs.is_("yrs::state_vector::StateVector::set_min")
-            R.ob("C02.b2", fn, site, ok, "%s on %s" % (F.strip_generics(cs.name).rsplit("::", 1)[-1], show(recv, 4)), cs.loc())
-    R.floor("C02.b2", "mutations of a missing-dependency vector", n, 2)
+            R.ob(rid, fn, site, ok, "%s on %s" % (F.strip_generics(cs.name).rsplit("::", 1)[-1], show(recv, 4)), cs.loc())
+    R.floor(rid, "mutations of a missing-dependency vector", n, 2)
     # and the merge of two stashes really carries every entry of the new one over
     au = Y.fn(TXN + "::apply_update")
     av = FnView(au)
@@ -217,7 +217,7 @@ def rule_b2(R, ctx):
         a1, a2 = av.arg(c, 1), av.arg(c, 2)
         if term_has_field(a1, "PendingUpdate.missing") and term_has_field(a2, "PendingUpdate.missing") and term_has_call(a1, "yrs::update::Update::integrate"):
             ok = True
-    R.ob("C02.b2", au, "merge-missing", ok, "old.missing.set_min(client, clock) for every (client, clock) of the new remainder's missing vector: %s" % ok)
+    R.ob(rid, au, "merge-missing", ok, "old.missing.set_min(client, clock) for every (client, clock) of the new remainder's missing vector: %s" % ok)
 
 
 def partial_field_defs(fn, local, field_suffix):
@@ -398,9 +398,9 @@ DEPENDENCIES = [
 ]
 
 
-def rule_g(R, ctx):
+def rule_g(R, ctx, rid="C02.g"):
     Y = ctx.yrs
-    R.rule("C02.g", "R-GUARD/R-PROV dependency test: in Update::missing_dependency every `return Ok(Some(id))` is reached only "
+    R.rule(rid, "R-GUARD/R-PROV dependency test: in Update::missing_dependency every `return Ok(Some(id))` is reached only "
                     "under `store.blocks.is_missing(id)` of the very id returned (the skip-aware presence test: a clock inside an "
                     "integrated Skip range is absent), and each dependency of an item — left origin, right origin, parent (by "
                     "branch item and by id), and with feature weak both quotation boundaries — has such a return")
@@ -413,7 +413,7 @@ def rule_g(R, ctx):
         t = v.terms.rvalue(d[3]["rv"], 40)
         if t[0] == "agg" and t[1].endswith("Result::Ok") and t[2] and t[2][0][0] == "agg" and t[2][0][1].endswith("Option::Some"):
             rets.append((d[1], t[2][0][2][0], d[3]["line"]))
-    R.floor("C02.g", "Ok(Some(id)) returns in missing_dependency", len(rets), 6 if ("weak" in Y.features) else 4)
+    R.floor(rid, "Ok(Some(id)) returns in missing_dependency", len(rets), 6 if ("weak" in Y.features) else 4)
     seen = {}
     for bb, idt, line in rets:
         ok = False
@@ -431,7 +431,7 @@ def rule_g(R, ctx):
                 name = nm
         site = "return:%s" % (name or sshow(idt, 4))
         seen[name] = True
-        R.ob("C02.g", fn, site, ok,
+        R.ob(rid, fn, site, ok,
              "returned dependency %s is tested with BlockStore::is_missing on this store" % sshow(idt) if ok else
              "dependency %s is reported missing under a different test than BlockStore::is_missing(store.blocks, <that id>): %s — "
              "a skip-unaware presence test lets a block integrate while its dependency is still a gap" %
@@ -439,7 +439,7 @@ def rule_g(R, ctx):
     for nm, fld, weak in DEPENDENCIES:
         if weak and not ("weak" in Y.features):
             continue
-        R.ob("C02.g", fn, "covers:%s" % nm, nm in seen,
+        R.ob(rid, fn, "covers:%s" % nm, nm in seen,
              "dependency `%s` has a missing-test" % nm if nm in seen else
              "no `return Ok(Some(..))` tests the dependency `%s` (%s): items would integrate before it arrived" % (nm, fld))
 
